@@ -28,7 +28,7 @@ class UnmanagedBSE(ManagedBSE):
         s.W = World(prog, ManagedEnv(env))
         s.M = s.W.M
         s.M.task_mode = not c['thread_mode']
-        s.M.fine_points = bool(c.get('fine'))
+        s.M.fine_points = bool(c.get('fine')); s.M.allow_block = True
         s.tasks = list(c.get('task_names') or [f'T{i + 1}' for i in range(c['tasks'])])
         s.nprobes = 0; s.susp = {}
         s.U = lambda suf: s.W.find(suf, 'src/unmanaged/mod.rs')
@@ -104,12 +104,14 @@ class UnmanagedBSE(ManagedBSE):
                 acts.append(('poll', t))
                 if s.cfg['cancel']: acts.append(('cancel', t))
                 continue
-            for i, v in enumerate(s.cfg['get_variants']): acts.append(('uget', t, i))
-            if nadds < s.cfg['max_adds']:
+            roles = (s.cfg.get('task_roles') or {}).get(t) or ('get', 'add', 'drop', 'take')
+            if 'get' in roles and L['gets'] < s.cfg.get('max_gets', 99):
+                for i, v in enumerate(s.cfg['get_variants']): acts.append(('uget', t, i))
+            if 'add' in roles and nadds < s.cfg['max_adds'] and L['adds'] < s.cfg.get('max_adds_task', 99):
                 for i, v in enumerate(s.cfg['add_variants']): acts.append(('uadd', t, i))
             if L['objs']:
-                acts.append(('drop', t, 0))
-                if s.cfg['take']: acts.append(('take', t, 0))
+                if 'drop' in roles: acts.append(('drop', t, 0))
+                if s.cfg['take'] and 'take' in roles: acts.append(('take', t, 0))
         C = st.threads['C'].local
         if C['nctl'] < s.cfg['max_ctl'] and not st.threads['C'].stack:
             for a in s.cfg['ctl']: acts.append((a,))
@@ -275,7 +277,7 @@ class UnmanagedBSE(ManagedBSE):
         if s.any_lock_held(st): return 'panic', 'panic'
         sc = st.clone(); r = s.W.call(sc, 'S', s.U('::status'), [Ref(sc.gget('pool'))])
         sc = st.clone(); r2 = s.W.call(sc, 'S', s.U('::verif_snapshot'), [Ref(sc.gget('pool'))])
-        if r[0][1][0] != 'ok' or r2[0][1][0] != 'ok': return 'panic', 'panic'
+        if r[0][1] is None or r2[0][1] is None or r[0][1][0] != 'ok' or r2[0][1][0] != 'ok': return 'panic', 'panic'
         S = r[0][1][1]; N = r2[0][1][1]
         def val(x): return (x.signed() if x.w == 64 and x.v >> 63 else x.v) if isinstance(x, I) else (bool(x) if isinstance(x, bool) else repr(x))
         return [val(S.f[i]) for i in range(4)], {'permits': val(N.f[0]), 'size_permits': val(N.f[1]), 'closed': val(N.f[2]), 'size': val(N.f[3]),
